@@ -19,7 +19,7 @@ def run(ctx):
     th = ctx.thorough
     r = ctx.tlc("runner-2x", "mc/MC_Runner.tla", "mc/MC_Runner.cfg", {"N": 4 if th else 3}, min_states=30000, timeout=3400, heap="14g")
     ctx.replay("runner-2x-replay", "runner", r["dump"], min_cases=30000)
-    r = ctx.tlc("runner-1x", "mc/MC_Runner.tla", "mc/MC_Runner.cfg", {"N": 6 if th else 4, "Runners": '{"r1"}'}, min_states=60000, timeout=3400, heap="14g")
+    r = ctx.tlc("runner-1x", "mc/MC_Runner.tla", "mc/MC_Runner.cfg", {"N": 5 if th else 4, "Runners": '{"r1"}'}, min_states=60000, timeout=3400, heap="14g")
     ctx.replay("runner-1x-replay", "runner", r["dump"], min_cases=60000)
     tr = ctx.record("runner-random", "runner", ["-histories", 400 if th else 60, "-len", 150 if th else 100])
     ctx.validate("runner-random-validate", "trace/Trace_Runner.tla", "trace/Trace_Runner.cfg", tr, "runner", shards=8 if th else 2)
